@@ -208,6 +208,25 @@ fn already_same_file(_: &Path, _: &Path) -> std::io::Result<Option<u64>> {
     Ok(None)
 }
 
+/// A destination that is a regular file with other hard links -- typically an
+/// earlier `hard_link` extraction of some *other* entry -- shares its inode
+/// with that entry's content file, and copying writes into the existing inode:
+/// the new bytes would end up in the cache, under the other entry's address.
+/// Unlink such a destination first, so that the copy makes a file of its own.
+#[cfg(unix)]
+fn detach_shared_destination(to: &Path) -> std::io::Result<()> {
+    use std::os::unix::fs::MetadataExt;
+    match std::fs::symlink_metadata(to) {
+        Ok(dest) if dest.is_file() && dest.nlink() > 1 => std::fs::remove_file(to),
+        _ => Ok(()),
+    }
+}
+
+#[cfg(not(unix))]
+fn detach_shared_destination(_: &Path) -> std::io::Result<()> {
+    Ok(())
+}
+
 pub fn copy_unchecked(cache: &Path, sri: &Integrity, to: &Path) -> Result<u64> {
     let cpath = path::content_path(cache, sri);
     let same = already_same_file(&cpath, to).with_context(|| {
@@ -220,6 +239,13 @@ pub fn copy_unchecked(cache: &Path, sri: &Integrity, to: &Path) -> Result<u64> {
     if let Some(len) = same {
         return Ok(len);
     }
+    detach_shared_destination(to).with_context(|| {
+        format!(
+            "Failed to copy cache contents from {} to {}",
+            cpath.display(),
+            to.display()
+        )
+    })?;
     std::fs::copy(cpath, to).with_context(|| {
         format!(
             "Failed to copy cache contents from {} to {}",
@@ -268,6 +294,13 @@ pub async fn copy_unchecked_async<'a>(
     if let Some(len) = same {
         return Ok(len);
     }
+    detach_shared_destination(to).with_context(|| {
+        format!(
+            "Failed to copy cache contents from {} to {}",
+            cpath.display(),
+            to.display()
+        )
+    })?;
     crate::async_lib::copy(&cpath, to).await.with_context(|| {
         format!(
             "Failed to copy cache contents from {} to {}",
